@@ -307,6 +307,16 @@ def dro_case(draw, polyhedral=True, allow_kl=False, max_scen=4, allow_lift=True,
                        'slack': draw(st.sampled_from([0.0, 0.5, 1.0, 2.0])), 'sense': row['sense']}
                 row['alt'] = alt
         cons.append(row)
+    if amb2 is not None and econs and not any(r.get('E') and r.get('amb') for r in cons) and draw(st.booleans()):
+        # an expectation constraint over the second ambiguity set (its probability set differs from the objective's)
+        row = {'a0': _vec(draw, nx), 'b': _vec(draw, ny), 'c': _vec(draw, nw), 'c0': None,
+               'slack': draw(st.sampled_from([0.0, 0.0, 0.5, 1.0])), 'sense': draw(st.sampled_from(['le', 'ge'])),
+               'style': draw(st.integers(0, 2)), 'E': True, 'amb': 1}
+        if not (any(row['a0']) or any(row['b'])):
+            row['a0'][0] = 1.0
+        if not any(row['c']):
+            row['c'][0] = 1.0
+        cons.append(row)
     okind = draw(st.sampled_from(['minsup', 'minsup', 'maxinf']))
     npieces = draw(st.sampled_from([1, 1, 2, 3]))
     pieces = []
